@@ -19,9 +19,7 @@ pub static SPEC: Spec = Spec {
     run_case,
     required: &[
         "fault:reopen:oplog.read",
-        "fault:reopen:oplog.len",
         "fault:reopen:tree.read",
-        "fault:reopen:bitfield.len",
         "fault:reopen:bitfield.read",
         "fault:append:data.write",
         "fault:append:oplog.write",
@@ -30,7 +28,6 @@ pub static SPEC: Spec = Spec {
         "fault:append:oplog.truncate",
         "fault:clear:data.del",
         "fault:clear:oplog.write",
-        "fault:clear:tree.read",
         "fault:get:data.read",
         "fault:get:tree.read",
         "fault:make_read_only:oplog.write",
